@@ -27,24 +27,44 @@ RULE = ("(12%: structured 'districts' inputs -- a district {a, b} with a <-> b A
         "has a counterfactual world, the graph has an edge and ID* went past line 3 (it built a counterfactual graph) "
         "and answered with an estimand, Zero from line 5, or 'unidentifiable'.")
 ASSUMPTIONS = [
-    "soundness is a THEOREM on the named fragment InFragment (Props/C07.lean idstar_sound_fragment, idstar_answers_fragment; "
-    "decidable test inFragmentB = in_fragment() below): events all of whose keys carry one subscript set, with unstarred values "
-    "and unstarred subscripts (the interventional queries P(y_x), conjunctions allowed): for every functional SCM compatible "
-    "with the graph (normalised noise, mechanisms bounded by a finite domain) the returned expression, read by `cden` "
-    "(Lemmas/CfDen.lean: the reading of the property), equals P(event), and ID* always answers. The harness reports how many "
-    "generated cases fall in the fragment (tags in_fragment, in_fragment_past_line3: ~30% / ~23% of the quick stream) and "
-    "treats ANY oracle failure inside it as a violation regardless of the finding keys (key IN-FRAGMENT is never listed)",
-    "OUTSIDE the fragment soundness (estimand = P(event)) and zero-soundness beyond lines 2, 3 and 5 have NO theorem (F10: the "
-    "implementation is wrong on ~10% of random events): decided by correspondence + exact evaluation on 8 sampled functional "
-    "SCMs per case (cardinalities 2-3); the known wrong answers are listed in known_findings.jsonl",
+    "soundness is a THEOREM on four decidable fragments (Props/C07.lean; tests inFragmentB / inFragment2B / inFragment2RB / inFragment3B of "
+    "Y0/Model/IdStar.lean, re-implemented by fragment_flags() below -- the first three on the graph alone, the last on the counterfactual "
+    "graph the REAL make_counterfactual_graph builds -- and COMPARED with the model's answer on every case): "
+    "fragment 1 (idstar_sound_fragment, idstar_answers_fragment, idstar_never_zero_fragment): all keys carry one subscript set, "
+    "unstarred values and subscripts (the queries P(y_x), conjunctions allowed); fragment 2 (idstar_sound_fragment2): all keys carry "
+    "one subscript set, values and subscripts of ANY polarity, and whenever line 6 fires no key with a starred value is a parent of "
+    "a non-self-intervened node of the counterfactual graph and no node of that graph is self-intervened on a starred subscript "
+    "(otherwise line 6 writes a starred symbol as an unstarred subscript: F10/M1, F10/M2); fragment 2R (idstar_sound_fragment2R): "
+    "events with any number of worlds that violate effectiveness, consist of tautologies, or are reduced to fragment 2 by line 3; "
+    "fragment 3 (idstar_sound_fragment3): events that are still multi-world after line 3 whose counterfactual graph has at most one "
+    "non-self-intervened node per variable, no non-self-intervened node named like a subscript, mutually consistent subscripts, the "
+    "diagram's bidirected edges between its non-self-intervened nodes, and on which lines 6 / 9 keep the polarities (Frag3At). "
+    "For every functional SCM compatible with the graph (normalised noise, mechanisms bounded by a finite domain) the returned "
+    "expression, read by `cden2` (Lemmas/CfStarLit.lean: the reading of the property -- outcome variables take the event's values, "
+    "an unstarred subscript is the literal x unless an enclosing Sum binds it, a starred one the literal x'), equals P(event). "
+    "The harness reports the share of generated cases per fragment (tag coverage: ~34% / ~34% / ~12% / ~7% of the quick stream, ~86% "
+    "together) and treats ANY oracle failure inside them as a violation regardless of the finding keys (key IN-FRAGMENT is never listed)",
+    "single-world events (tag one_world, ~72% of the stream): ID* never refuses (idstar_answers_oneworld) and returns Zero iff "
+    "line 2 fires (idstar_zero_iff_line2_oneworld, idstar_zero_sound_oneworld) -- both are checked on the real code on every "
+    "single-world case (kinds 'refusal', 'zero-iff-line2', never listed); under the CONFLATING reading (an unstarred subscript -X "
+    "denotes the value the event gives X) the estimand of EVERY single-world event is P(event) (idstar_sound_oneworld_conflating), "
+    "i.e. on single-world events F10 is exactly the lost polarity of the subscripts line 6 writes",
+    "OUTSIDE the fragments (single-world events on which line 6 loses a polarity: ~4%; events that are still multi-world after line 3, "
+    "violate Frag3At and get an estimand: ~6%) soundness of the estimand has NO theorem and is false on the current tree (F10: 86% resp. "
+    "88% of these events get a wrong answer; tools/c07_boundary.py): decided by correspondence + exact evaluation on 8 sampled functional SCMs per case (cardinalities 2-3); "
+    "the known wrong answers are listed in known_findings.jsonl. Zero: for every event Zero comes from line 2, line 5 or from line 2 "
+    "of a recursive call on a district event (idstar_zero_origin); the first two are sound by theorem (idstar_zero_sound_partial), "
+    "the third kind is decided by the oracle (open findings of kind 'zero'). Refusals: ID* refuses iff line 8 of the top-level "
+    "call finds a conflict (idstar_refusal_iff_conflict); recursive calls never refuse",
     "reading of an estimand: a free outcome variable takes the event's value for that variable; when the event gives the "
     "variable both values (x in one world, x' in another) the reading is ambiguous and the oracle accepts the estimand if "
     "SOME choice (per leaf) works in all sampled models; subscripts: +X is the literal x'; -X is the value bound by an "
     "enclosing Sum over X, else the literal x -- the oracle also accepts the strictly literal reading (both conventions "
     "are tried, the estimand passes if one of them is right in all sampled models); a variable that is neither bound nor "
     "valued by the event must not influence the value (all its values are tried)",
-    "'otherwise refuses with unidentifiable': completeness of the refusal is not checked (no independent identifiability "
-    "decision procedure for counterfactual events); only that the refusal is the Unidentifiable exception and nothing else",
+    "'otherwise refuses with unidentifiable': whether the refused events are really unidentifiable is not checked (no independent "
+    "identifiability decision procedure for counterfactual events); proved: a refusal is raised by line 8's conflict test of the "
+    "top-level call and by nothing else (idstar_refusal_iff_conflict), never on a single-world event",
     "termination: the model recurses on a fuel (2|V| + |event| + 4); that the fuel is never exhausted is now a THEOREM "
     "(Props/C07.lean idstar_terminates / idstar_never_out_of_fuel / idstar_outcomes) for well-formed graphs without self-loop "
     "edges and well-formed events (GoodEv: keys are variables of the graph with consistent subscript sets), every iteration "
@@ -196,16 +216,200 @@ def _judge(case, res, exc, n_models):
     return (None, None) if w is None else (f"estimand {expr} differs from P(event): {w}", "value")
 
 
+def _world_key(var):
+    return json.dumps(sorted([int(n), s_] for n, s_ in var[4]))
+
+
+def _violates_effectiveness(ev):
+    """line 2 of ID*, from the paper: some conjunct V_S = v has V in S with the other polarity"""
+    return any(int(n) == int(var[1]) and s_ != val for var, val in ev for n, s_ in var[4])
+
+
+def _flags3(case):
+    """[fragment 1, fragment 2, single-world]: the membership tests of Props/C07.lean (`inFragmentB`, `inFragment2B`, `oneWorldB` of
+    Y0/Model/IdStar.lean), re-implemented on the GRAPH (no counterfactual graph is built here): the Lean driver is asked for the same
+    three flags on every case and the correspondence check compares them, so the two implementations test each other.
+
+    single-world: a non-empty event dict over variables of the graph all of whose keys carry ONE consistent subscript set.
+    fragment 1:   single-world, every value and every subscript unstarred.
+    fragment 2:   single-world (any polarity) and: the event violates effectiveness (line 2 answers), or -- with K the keys that
+                  survive line 3, A the ancestors of K in the graph whose edges into the subscripted variables are cut, N = A minus
+                  the subscripted variables -- N is one district (line 9 answers), or no key with a starred value has a child in N
+                  and no variable with a starred subscript is in A (line 6 writes no starred symbol as an unstarred subscript)."""
+    ev = case["event"]
+    g = case["g"]
+    nodes = set(G.all_nodes(g))
+    if not ev or any(isinstance(val, (list, tuple)) for _, val in ev):
+        return [0, 0, 0]
+    keys = [C.enc(var) for var, _ in ev]
+    if len(set(keys)) != len(keys) or any(int(var[1]) not in nodes or var[2] != "n" or str(var[3]) != "0" for var, _ in ev):
+        return [0, 0, 0]
+    if len({_world_key(var) for var, _ in ev}) != 1:
+        return [0, 0, 0]
+    subs = [(int(n), s_) for n, s_ in ev[0][0][4]]
+    w = {}
+    for n, s_ in subs:
+        if w.setdefault(n, s_) != s_:
+            return [0, 0, 0]
+    f1 = int(all(val == "m" for _, val in ev) and all(s_ == "m" for s_ in w.values()))
+    if _violates_effectiveness(ev):
+        return [f1, 1, 1]
+    ev2 = [(int(var[1]), val) for var, val in ev if int(var[1]) not in w]
+    if not ev2:
+        return [f1, 1, 1]
+    try:
+        S.topo_order(nodes, [tuple(e) for e in g["di"]])
+    except ValueError:
+        return [f1, 1, 1]      # cyclic graph: make_counterfactual_graph raises, nothing to keep clean
+    pa = {}
+    for u, v_ in g["di"]:
+        pa.setdefault(v_, set()).add(u)
+    anc, stack = set(), [k for k, _ in ev2]
+    while stack:
+        x = stack.pop()
+        if x in anc:
+            continue
+        anc.add(x)
+        if x not in w:
+            stack.extend(pa.get(x, ()))
+    nsi = {x for x in anc if x not in w}
+    comp = {x: x for x in nsi}
+
+    def find(x):
+        while comp[x] != x:
+            x = comp[x]
+        return x
+    for u, v_ in g["bi"]:
+        if u in nsi and v_ in nsi:
+            comp[find(u)] = find(v_)
+    if len({find(x) for x in nsi}) == 1:
+        return [f1, 1, 1]
+    if any(val == "p" and any(u == k and v_ in nsi for u, v_ in g["di"]) for k, val in ev2):
+        return [f1, 0, 1]
+    if any(w[x] == "p" for x in anc if x in w):
+        return [f1, 0, 1]
+    return [f1, 1, 1]
+
+
+def _good_event(case):
+    """`GoodEv`: a dict whose keys are variables of the graph with consistent subscript sets, values named after their variables"""
+    ev = case["event"]
+    nodes = set(G.all_nodes(case["g"]))
+    keys = [C.enc(var) for var, _ in ev]
+    if len(set(keys)) != len(keys) or any(isinstance(val, (list, tuple)) for _, val in ev):
+        return False
+    for var, _ in ev:
+        if int(var[1]) not in nodes or var[2] != "n" or str(var[3]) != "0":
+            return False
+        w = {}
+        for n, s_ in var[4]:
+            if w.setdefault(int(n), s_) != s_:
+                return False
+    return True
+
+
+def remove_tautologies(ev):
+    """line 3 of ID*, from the paper: drop the conjuncts V_S = v with V in S at the same polarity"""
+    return [[var, val] for var, val in ev if not any(int(n) == int(var[1]) and s_ == val for n, s_ in var[4])]
+
+
+def _frag3(case):
+    """FRAGMENT 3 (`inFragment3B` / `Frag3At`, theorem idstar_sound_fragment3): a well-formed event that does not violate
+    effectiveness, keeps a conjunct after line 3, and whose counterfactual graph g -- built here by the REAL
+    make_counterfactual_graph from the event without its tautologies, worlds in sorted order; the driver builds it with the MODEL --
+    satisfies: (a) at most one non-self-intervened node per variable; (b) no non-self-intervened node named like a subscript of a node
+    of g; (c) the subscripts of the nodes of g are mutually consistent; (d) bidirected edges of the diagram between non-self-intervened
+    nodes are edges of g; (e) line 9 (connected): the subscript by which a self-intervened node is intervened is a subscript of a
+    non-self-intervened node; line 6: no starred-valued key is a parent of a non-self-intervened node and no node is
+    self-intervened on a starred subscript."""
+    import importlib
+
+    ev = case["event"]
+    if not ev or not _good_event(case) or _violates_effectiveness(ev):
+        return 0
+    red = remove_tautologies(ev)
+    if not red:
+        return 0
+    g = case["g"]
+    try:
+        S.topo_order(set(G.all_nodes(g)), [tuple(e) for e in g["di"]])
+    except ValueError:
+        return 0
+    cg = importlib.import_module("y0.algorithm.identify.cg")
+    try:
+        with K.fixed_world_order((0, 0)):
+            cf, nev = cg.make_counterfactual_graph(G.to_nx_mixed(g), K.dec_event(red))
+    except Exception:  # noqa: BLE001
+        return 0
+    if nev is None:
+        return 0
+    nodes = list(cf.nodes())
+    nsi = [n for n in nodes if not _is_self_intervened(n)]
+    si = [n for n in nodes if _is_self_intervened(n)]
+    subs = {(i.name, bool(i.star)) for x in nodes for i in getattr(x, "interventions", ())}
+    ok = len({n.name for n in nsi}) == len(nsi)
+    ok = ok and not ({n.name for n in nsi} & {a for a, _ in subs})
+    ok = ok and len({a for a, _ in subs}) == len(subs)
+    bi = {frozenset((G.vname(u), G.vname(v_))) for u, v_ in g["bi"]}
+    for i_, a in enumerate(nsi):
+        for b in nsi[i_ + 1:]:
+            if a.name != b.name and frozenset((a.name, b.name)) in bi and not cf.undirected.has_edge(a, b):
+                ok = False
+    if not ok:
+        return 0
+    if cf.subgraph(nsi).is_connected():
+        nsub = {(i.name, bool(i.star)) for x in nsi for i in getattr(x, "interventions", ())}
+        return int(all((i.name, bool(i.star)) in nsub for x in si for i in x.interventions if i.name == x.name))
+    di = {(G.vname(u), G.vname(v_)) for u, v_ in g["di"]}
+    starred = {k.name for k, val in nev.items() if val.star}
+    if any((k, n.name) in di for k in starred for n in nsi):
+        return 0
+    return int(not any(i.star for x in si for i in x.interventions if i.name == x.name))
+
+
+def fragment_flags(case):
+    """[fragment 1, fragment 2, single-world, fragment 2R, fragment 3] (see _flags3, _frag3).  Fragment 2R: a well-formed event (any number of worlds)
+    that violates effectiveness, or all of whose conjuncts are tautologies, or that line 3 reduces to an event of fragment 2
+    (`inFragment2RB` / theorem idstar_sound_fragment2R)."""
+    f = _flags3(case)
+    ev = case["event"]
+    r = 0
+    if ev and _good_event(case):
+        red = remove_tautologies(ev)
+        r = int(_violates_effectiveness(ev) or not red or bool(_flags3(dict(case, event=red))[1]))
+    return f + [r, _frag3(case)]
+
+
 def in_fragment(case):
-    """the NAMED FRAGMENT of Props/C07.lean (`InFragment`): a non-empty well-formed event over variables of the graph all of
+    """the NAMED FRAGMENT 1 of Props/C07.lean (`InFragment`): a non-empty well-formed event over variables of the graph all of
     whose keys carry ONE subscript set (possibly empty: all factual), with unstarred values and unstarred subscripts
     (P(y_x) with x, y the unstarred values).  Inside it ID* is proved sound, so ANY oracle failure there is a violation."""
-    ev = case["event"]
-    if not ev or case.get("malformed") or not C18._in_domain(case):
+    if not case["event"] or case.get("malformed") or not C18._in_domain(case):
         return False
-    if len({json.dumps(sorted([int(n), s_] for n, s_ in var[4])) for var, _ in ev}) != 1:
+    return bool(fragment_flags(case)[0])
+
+
+def in_fragment2(case):
+    """FRAGMENT 2 of Props/C07.lean (`InFragment2`, theorem idstar_sound_fragment2): single-world events of ANY polarity on which
+    line 6 keeps the polarities (see fragment_flags).  Contains fragment 1.  ANY oracle failure inside it is a violation."""
+    if not case["event"] or case.get("malformed") or not C18._in_domain(case):
         return False
-    return all(val == "m" for _, val in ev) and all(s_ == "m" for var, _ in ev for _, s_ in var[4])
+    return bool(fragment_flags(case)[1])
+
+
+def in_fragment2r(case):
+    """FRAGMENT 2R (`InFragment2R`, theorem idstar_sound_fragment2R): events that lines 2-3 reduce to fragment 2.  Contains
+    fragment 2.  ANY oracle failure inside it is a violation."""
+    if not case["event"] or case.get("malformed") or not C18._in_domain(case):
+        return False
+    return bool(fragment_flags(case)[3])
+
+
+def one_world(case):
+    """single-world events (`OneWorld`): ID* never refuses there and returns Zero iff line 2 fires (theorems)"""
+    if not case["event"] or case.get("malformed") or not C18._in_domain(case):
+        return False
+    return bool(fragment_flags(case)[2])
 
 
 def _evaluate(case, n_models=8, with_unpatched=True):
@@ -235,9 +439,25 @@ def _evaluate(case, n_models=8, with_unpatched=True):
             if fail:
                 strategy = strat_of.get(json.dumps(r))
                 break
-    frag = in_fragment(case)
+    flags = fragment_flags(case)
+    okc = bool(case["event"]) and not case.get("malformed") and dom
+    frag, frag2s, ow = bool(okc and flags[0]), bool(okc and flags[1]), bool(okc and flags[2])
+    frag2 = bool(okc and (flags[1] or flags[3] or flags[4]))
+    if dom and ow and not fail:
+        # theorems idstar_answers_oneworld / idstar_zero_iff_line2_oneworld: on a single-world event ID* never refuses, and it
+        # returns Zero exactly when line 2 fires
+        for r in results:
+            if r == ["unidentifiable"]:
+                fail, kind, strategy = "id_star refused a single-world event (it never does: idstar_answers_oneworld)", "refusal", \
+                    strat_of.get(json.dumps(r))
+                break
+            if r[0] == "ok" and (r[1] == "zero") != _violates_effectiveness(case["event"]):
+                fail, kind, strategy = ("on a single-world event Zero is returned iff the event violates effectiveness "
+                                        "(idstar_zero_iff_line2_oneworld)"), "zero-iff-line2", strat_of.get(json.dumps(r))
+                break
     return {"by_order": by_order, "unpatched": r0, "fail": fail, "kind": kind, "in_domain": dom, "strategy": strategy,
-            "in_fragment": frag}
+            "in_fragment": frag, "in_fragment2": frag2, "one_world": ow, "in_fragment2_strict": frag2s, "flags": flags,
+            "in_fragment2r": bool(okc and flags[3]), "in_fragment3": bool(okc and flags[4])}
 
 
 # ------------------------------------------------------------------------------------------ locating a failure in the recursion
@@ -385,9 +605,12 @@ def _local_class(node):
 def _coarse_key(case, r):
     """finding key of a wrong value / wrong Zero located in the recursion: (kind, step of the blamed call, defect patterns
     present at that step); None when the failure cannot be located (then the shrunk input is the key)"""
-    if r.get("in_fragment"):
-        # never listed: the fragment is covered by a theorem, nothing that fails inside it can be a known finding
-        return json.dumps(["IN-FRAGMENT", r["kind"]])
+    if r.get("in_fragment") or r.get("in_fragment2"):
+        # never listed: the fragments are covered by theorems, nothing that fails inside them can be a known finding
+        return json.dumps(["IN-FRAGMENT", 1 if r.get("in_fragment") else 3 if not (r.get("in_fragment2_strict") or
+                                                                                  r.get("in_fragment2r")) else 2, r["kind"]])
+    if r["kind"] in ("refusal", "zero-iff-line2"):
+        return json.dumps(["ONE-WORLD", r["kind"]])
     if r["kind"] not in ("value", "zero"):
         return None
     try:
@@ -423,10 +646,15 @@ def run_python(case):
             "in_domain": r["in_domain"], "has_bidirected": bool(case["g"]["bi"]),
             "single_world_leaves": all(single_world(x[1]) for x in by_order if x[0] == "ok"),
             "failure_kind": r["kind"], "in_fragment": r["in_fragment"],
-            "in_fragment_past_line3": bool(r["in_fragment"] and past3), "gen": case.get("gen", "random")}
+            "in_fragment_past_line3": bool(r["in_fragment"] and past3), "gen": case.get("gen", "random"),
+            "in_fragment2": r["in_fragment2"], "in_fragment2_past_line3": bool(r["in_fragment2"] and past3),
+            "coverage": ("not-in-domain" if not r["in_domain"] else "fragment1" if r["in_fragment"] else
+                         "fragment2" if r["in_fragment2_strict"] else "fragment2R" if r["in_fragment2r"] else
+                         "fragment3" if r["in_fragment3"] else "single-world-outside" if r["one_world"] else
+                         "multi-world-" + ("zero" if shape == "zero" else "refused" if shape == "unidentifiable" else "estimand"))}
     nontrivial = r["in_domain"] and K.n_worlds(ev) >= 1 and bool(case["g"]["di"] or case["g"]["bi"]) and past3 and \
         shape in ("P", "sum", "prod", "unidentifiable", "zero")
-    out = {"out": ["orders", by_order], "fail": r["fail"], "nontrivial": bool(nontrivial), "tags": tags}
+    out = {"out": ["orders", by_order, r["flags"]], "fail": r["fail"], "nontrivial": bool(nontrivial), "tags": tags}
     ck = _coarse_key(case, r) if r["fail"] else None
     if ck is not None:
         out["finding_key"] = ck
@@ -443,9 +671,12 @@ def run_python(case):
 
 
 def request(case):
+    """C07's own cases ask for the estimands AND the fragment flags (op id_star_all_frag); cases of another check that re-uses this
+    request function (C06 tags its cases with "src") get the plain op id_star_all"""
     g = case["g"]
     gs = C.graph_sexp(g["nodes"], g["di"], g["bi"])
-    return C.enc(["cf", "id_star_all", gs, case["event"], [list(s) for s in K.id_strategies(case["event"])]])
+    op = "id_star_all" if "src" in case else "id_star_all_frag"
+    return C.enc(["cf", op, gs, case["event"], [list(s) for s in K.id_strategies(case["event"])]])
 
 
 def _canon_one(rep):
@@ -457,6 +688,8 @@ def _canon_one(rep):
 def canon_model(case, rep):
     if rep[0] != "ok":
         return ["model-error", rep]
+    if len(rep) > 1 and isinstance(rep[1], list) and rep[1] and rep[1][0] == "frag":
+        return ["orders", [_canon_one(r) for r in rep[2:]], [int(x) for x in rep[1][1:]]]
     return ["orders", [_canon_one(r) for r in rep[1:]]]
 
 
@@ -519,22 +752,30 @@ MANIFEST = {
     "text": ("Partial proof. Lean theorems about the executable model of id_star.py (Y0/Model/IdStar.lean), for every graph, "
              "event, fuel and iteration order: line 2 is sound (an event violating effectiveness has probability 0 in every "
              "functional SCM), line 3 is sound (removing tautologies preserves the probability in every functional SCM), the "
-             "line-3 recursion strictly shrinks the event and is taken at most once; error taxonomy: on an acyclic graph and "
-             "a well-formed event the only outcomes are an estimand, Zero, 'unidentifiable' or the model's fuel bound (the "
-             "RuntimeError of line 6, the null-graph error of nx.is_connected, ValueError/NetworkXError of the helpers are "
-             "unreachable); an answer reached with some fuel is not changed by more fuel; every leaf of a returned estimand is a "
-             "single-world interventional term (C06 part); Zero returned by line 5 is sound (by C18's cg_prob). TERMINATION is proved "
+             "line-3 recursion strictly shrinks the event and is taken at most once; error taxonomy and TERMINATION "
              "(idstar_terminates / idstar_outcomes: 2|V|+3 units of fuel are never exhausted; the outcomes are an estimand, Zero or "
-             "'unidentifiable', nothing else). SOUNDNESS is proved on the named fragment InFragment (all keys in one world, unstarred "
-             "values and subscripts: the queries P(y_x)): idstar_sound_fragment -- in every compatible functional SCM the returned "
-             "expression equals P(event) -- and idstar_answers_fragment (ID* never refuses there); the proof goes through the product "
-             "structure of the noise space, local mechanism events, the c-component factorisation over the districts of the "
-             "counterfactual graph and marginalisation. Outside the fragment soundness of the returned estimand and of Zero from line 6 has NO "
-             "theorem; on the current tree it is false (F10): the check decides it by correspondence with the real code plus "
-             "exact evaluation on sampled functional SCMs, locates every wrong answer in the recursion of the real code and lists the "
-             "known defect patterns (F10/M1-M5, D1-D2) as open findings; a wrong step that shows none of them is a new violation; any failure inside the fragment is a violation whatever its key."),
+             "'unidentifiable', nothing else); every leaf of a returned estimand is a single-world interventional term (C06 part). "
+             "SOUNDNESS (in every compatible functional SCM the returned expression, under the reading of the property, equals "
+             "P(event)) is proved on four decidable fragments: fragment 1 (one subscript set, unstarred values and subscripts: "
+             "the queries P(y_x)), fragment 2 (one subscript set, ANY polarity of values and subscripts, provided line 6 -- when it "
+             "fires -- finds no starred-valued key that is a parent of a non-self-intervened node of the counterfactual graph and no "
+             "node self-intervened on a starred subscript), fragment 2R (events with any number of worlds that lines 2-3 reduce to "
+             "fragment 2) and fragment 3 (events still multi-world after line 3 whose counterfactual graph has one non-self-intervened "
+             "node per variable, none named like a subscript, consistent subscripts, and keeps the polarities): about 86% of the "
+             "generated events, and the measured boundary of correctness of the real code (outside them 86-88% of the estimands are wrong). On EVERY single-world event the estimand is P(event) under the conflating "
+             "reading (an unstarred subscript denotes the value the event gives the variable): there F10 is exactly the lost polarity "
+             "of the subscripts line 6 writes; the measured boundary (tools/c07_boundary.py) coincides with the proved one. ZERO: on "
+             "single-world events Zero is returned iff line 2 fires (sound); for every event Zero comes from line 2, line 5 (both "
+             "sound) or line 2 of a recursive call on a district event (open: the findings of kind 'zero'). REFUSALS: ID* refuses "
+             "iff line 8 of the top-level call finds a conflict; recursive calls never refuse; single-world events are never refused. "
+             "Outside the fragments soundness of the estimand has NO theorem; on the current tree it is false (F10): the check decides "
+             "it by correspondence with the real code plus exact evaluation on sampled functional SCMs, locates every wrong answer in "
+             "the recursion of the real code and lists the known defect patterns (F10/M1-M5, D1-D2) as open findings; a wrong step "
+             "that shows none of them is a new violation; any failure inside a fragment is a violation whatever its key."),
     "note": ("Trusted: Lean kernel + standard axioms; the hand-written models tied to the code by differential testing under "
-             "all set-iteration orders; the reading convention of estimands stated in ASSUMPTIONS; sampled models (8 per "
-             "case). One small defect was fixed (line 9 marginalisation, 4295b26); the F10 family stays open: 16 finding keys (failure kind x step of the blamed recursive call x known defect pattern), each with a minimal example."),
-    "technique": "Lean 4 theorems (termination; soundness on the single-world unstarred fragment over all functional SCMs; lines 2-3-5; error taxonomy; vocabulary invariant) + differential correspondence + exact-rational functional-SCM oracle + located known findings",
+             "all set-iteration orders (the fragment membership tests are part of the compared output); the reading convention of "
+             "estimands stated in ASSUMPTIONS; sampled models (8 per case). One small defect was fixed (line 9 marginalisation, "
+             "4295b26); the F10 family stays open: 10 finding keys for C07 (failure kind x step of the blamed recursive call x known "
+             "defect pattern), each with a minimal example."),
+    "technique": "Lean 4 theorems (termination; soundness on single-world events of any polarity, on what lines 2-3 reduce to them and on multi-world events with a clean counterfactual graph, over all functional SCMs; Zero and refusal characterisations; lines 2-3-5; error taxonomy; vocabulary invariant) + differential correspondence + exact-rational functional-SCM oracle + located known findings",
 }
